@@ -117,7 +117,7 @@ pub fn spec_strategy(depth: u32) -> BoxedStrategy<Spec> {
 
 fn op_strategy(prop: &str) -> BoxedStrategy<(u8, u32, u32)> {
     let codes: Vec<(u32, u8)> = match prop {
-        "C10" => vec![(3, 1), (10, 6), (10, 7), (1, 8), (1, 9), (1, 10), (1, 16), (1, 17), (1, 3)],
+        "C10" | "C02" => vec![(3, 1), (10, 6), (10, 7), (1, 8), (1, 9), (1, 10), (1, 16), (1, 17), (1, 3)],
         "C12" => vec![(5, 1), (2, 2), (3, 3), (1, 4), (4, 5), (2, 6), (2, 7), (4, 8), (2, 9), (2, 10), (4, 11), (4, 12), (4, 13), (1, 14), (1, 15), (1, 16), (1, 17), (1, 18), (3, 19)],
         _ => vec![(6, 1), (5, 2), (4, 3), (2, 4), (5, 5), (2, 6), (2, 7), (3, 8), (2, 9), (2, 10), (1, 11), (1, 12), (1, 13), (1, 14), (1, 15), (1, 16), (1, 17), (2, 18), (2, 19)],
     };
